@@ -35,7 +35,7 @@ def accepted_trees(db, fn):
 
 
 def substitute(tree, args):
-    if not isinstance(tree, tuple):
+    if not isinstance(tree, tuple) or not tree:
         return tree
     if tree[0] == 'arg':
         return args[tree[1] - 1] if tree[1] - 1 < len(args) else tree
@@ -46,7 +46,7 @@ def substitute(tree, args):
 
 def expand(db, tree, depth=0, select=None):
     """inline calls to local straight-line functions (their single accepted value)"""
-    if not isinstance(tree, tuple) or depth > 12:
+    if not isinstance(tree, tuple) or not tree or depth > 12:
         return tree
     if tree[0] == 'agg':
         return ('agg', tree[1], tree[2], {k: expand(db, v, depth, select) for k, v in tree[3].items()})
@@ -90,7 +90,7 @@ class PolyEval:
         return self.leaf(('proj', base, ('idx', ('val', off + idx))))
 
     def ev(self, t):
-        if not isinstance(t, tuple):
+        if not isinstance(t, tuple) or not t:
             raise NotStraight(f'non-tree {t!r}')
         h = t[0]
         if h == 'val':
